@@ -47,7 +47,7 @@ FamilyTable ==
     rt3mj |-> [op |-> "rt", dim |-> 3, kinds |-> <<"point", "point", "point">>],
     rt3jm |-> [op |-> "rt", dim |-> 3, kinds |-> <<"line3", "plane", "plane">>] ]
 
-VHash(v) == 100000 + (IF Len(v) = 6 THEN Dot(v, <<1, 3, 9, 27, 81, 243>>) ELSE Dot(v, SubSeq(<<1, 3, 9, 27>>, 1, Len(v))))
+VHash(v) == 100003 + (IF Len(v) = 6 THEN Dot(v, <<1, 5, 7, 11, 13, 17>>) ELSE Dot(v, SubSeq(<<1, 5, 7, 11>>, 1, Len(v))))
 Keep(v, stride) == VHash(v) % stride = Seed % stride
 
 IsRT(f) == f \in {"rt2mj", "rt2jm", "rt3mj", "rt3jm"}
